@@ -1,12 +1,42 @@
-"""Real-code adapter for the `seq` stream (C02): every op line builds a fresh MinHash
-from the package assembled from /repo's working tree and pushes one sequence (hex
-encoded in the op) through a public entry point.  One observation line per op."""
-import sys
+"""Real-code adapter for the `seq` stream (C02).  Every op line pushes sequences (hex encoded in
+the op) through a public entry point of the package assembled from /repo's working tree and
+prints one observation.
 
-from sourmash import MinHash
-from sourmash.minhash import hash_murmur
+Periphery (none of this is visible to the model; a per-case counter, reset at `#`, picks):
+* ROUTES: the same operation is issued through the different spellings the Python layer offers
+  (bytes / str argument, positional / keyword / defaulted `force`, sketch-level vs
+  `SourmashSignature`-level add_sequence / add_protein, differently constructed sketches for
+  the read-only calls: num / scaled / abundance / pre-filled / frozen, hash_murmur with a
+  defaulted seed or an int argument).
+* VIEWS: after every op what can be read two ways must agree (len / iteration / .hashes, copy,
+  pickle, frozen copy, signature round trip, parameters; bulk `add_many(seq_to_hashes())` and
+  k-mer by k-mer `add_kmer` against `add_sequence`; every sketch of a multi-sketch signature
+  built by `from_params` against the stand-alone sketch; an accumulating sketch against the sum
+  of the fresh ones; read-only calls repeated).
+* HISTORIES: every object an op produced is kept until the end of the case and re-read after
+  every later op.
+A disagreement is appended to the observation as ` VIEW:<what>` (the oracle reports it)."""
+import atexit
+import contextlib
+import copy
+import io
+import os
+import pickle
+import shutil
+import sys
+import tempfile
+import warnings
+
+from sourmash import MinHash, SourmashSignature
+from sourmash import signature as sigmod
+from sourmash.command_compute import ComputeParameters
+from sourmash.minhash import hash_murmur, translate_codon, FrozenMinHash
+from sourmash._lowlevel import lib
+
+warnings.simplefilter("ignore")
 
 MOL = {"dna": {}, "protein": {"is_protein": True}, "dayhoff": {"dayhoff": True}, "hp": {"hp": True}}
+MOLTYPE = {"dna": "DNA", "protein": "protein", "dayhoff": "dayhoff", "hp": "hp"}
 
 
 def unhex(h):
@@ -52,81 +82,466 @@ def exc_name(e):
     return type(e).__name__
 
 
-def counts(mh):
-    hs = mh.hashes
-    return ",".join(f"{k}:{hs[k]}" for k in sorted(hs))
+def hashes_of(mh):
+    return dict(mh.hashes.items())
 
 
-def feed(mh, recs, fn):
+def counts_str(d):
+    return ",".join(f"{k}:{d[k]}" for k in sorted(d))
+
+
+class Case:
+    """per-case periphery state (reset at `#`)"""
+
+    def __init__(self):
+        self.n = 0                   # ops seen in this case: picks the route
+        self.kept = []               # (label, object, reader, value at creation)
+        self.acc = {}                # (mol, k, seed) -> (accumulating sketch, expected dict)
+
+    def keep(self, label, obj, reader):
+        self.kept.append((label, obj, reader, reader(obj)))
+
+    def recheck(self):
+        bad = []
+        for label, obj, reader, val in self.kept:
+            try:
+                now = reader(obj)
+            except BaseException as e:       # noqa: BLE001
+                now = "exc " + exc_name(e)
+            if now != val:
+                bad.append("history-" + label)
+        return bad
+
+
+def maybe_str(rec, want_str):
+    if want_str:
+        try:
+            return rec.decode("utf-8")
+        except UnicodeDecodeError:
+            return rec
+    return rec
+
+
+def views_of_sketch(mh, mol, k, seed):
+    """everything readable two ways about one sketch must agree"""
+    bad = []
+    hs = hashes_of(mh)
+    keys = list(hs)
+    if keys != sorted(keys):
+        bad.append("hashes-unsorted")
+    if len(mh) != len(hs) or len(mh.hashes) != len(hs) or list(iter(mh.hashes)) != keys:
+        bad.append("len-vs-hashes")
+    if mh.seed != seed or mh.ksize != k or mh.moltype != MOLTYPE[mol]:
+        bad.append("params")
+    if (mh.is_dna, mh.is_protein, mh.dayhoff, mh.hp) != (mol == "dna", mol == "protein", mol == "dayhoff", mol == "hp"):
+        bad.append("moltype-flags")
+    def same(other):
+        return hashes_of(other) == hs and (other.seed, other.ksize, other.moltype, other.scaled, other.num,
+                                           other.track_abundance) == (seed, k, MOLTYPE[mol], mh.scaled, mh.num,
+                                                                      mh.track_abundance)
+    if not same(copy.copy(mh)) or not same(mh.copy()):
+        bad.append("copy")
+    if not same(pickle.loads(pickle.dumps(mh))):
+        bad.append("pickle")
+    if not same(mh.to_frozen()) or not same(mh.to_mutable()):
+        bad.append("frozen-copy")
+    cl = mh.copy_and_clear()
+    if len(cl) != 0 or (cl.seed, cl.ksize, cl.moltype) != (seed, k, MOLTYPE[mol]):
+        bad.append("copy_and_clear")
+    sig = SourmashSignature(mh)
+    if not same(sig.minhash) or len(sig) != 1:
+        bad.append("signature-wrap")
+    js = sigmod.save_signatures_to_json([sig])
+    back = list(sigmod.load_signatures_from_json(js))
+    if len(back) != 1 or hashes_of(back[0].minhash) != hs or back[0].minhash.ksize != k or \
+            back[0].minhash.moltype != MOLTYPE[mol] or back[0].minhash.seed != seed:
+        bad.append("json-roundtrip")
+    return bad
+
+
+def fresh(mol, k, seed):
+    return MinHash(0, k, scaled=1, seed=seed, track_abundance=True, **MOL[mol])
+
+
+def feed_plain(mh, recs, add):
+    """-> (status, exception name)"""
     try:
         for r in recs:
-            fn(r)
-        return "ok " + counts(mh)
+            add(r)
+        return "ok", None
     except BaseException as e:       # noqa: BLE001
-        return "err " + exc_name(e) + " " + counts(mh)
+        return "err", exc_name(e)
+
+
+def run_add(case, mol, k, seed, force, recs, protein):
+    """add_sequence / add_protein through one of the routes; returns the observation line"""
+    route = case.n % 5
+    mh = fresh(mol, k, seed)
+    final = mh
+    if protein:
+        if route in (0, 3):
+            st, exn = feed_plain(mh, recs, lambda r: mh.add_protein(r))
+        elif route in (1, 4):
+            st, exn = feed_plain(mh, recs, lambda r: mh.add_protein(maybe_str(r, True)))
+        else:
+            sig = SourmashSignature(mh)
+            st, exn = feed_plain(mh, recs, lambda r: sig.add_protein(r))
+            final = sig.minhash
+    else:
+        if route == 0:
+            # (a single byte may also be given as an int)
+            st, exn = feed_plain(mh, recs, lambda r: mh.add_sequence(r[0] if len(r) == 1 else r, force))
+        elif route == 1:
+            st, exn = feed_plain(mh, recs, lambda r: mh.add_sequence(maybe_str(r, True), force=force))
+        elif route == 2:
+            sig = SourmashSignature(mh)
+            st, exn = feed_plain(mh, recs, lambda r: sig.add_sequence(maybe_str(r, case.n % 2 == 0), force))
+            final = sig.minhash
+        elif route == 3:
+            if force:
+                st, exn = feed_plain(mh, recs, lambda r: mh.add_sequence(sequence=r, force=True))
+            else:
+                st, exn = feed_plain(mh, recs, lambda r: mh.add_sequence(r))            # defaulted force
+        else:
+            sig = SourmashSignature(mh)
+            if force:
+                st, exn = feed_plain(mh, recs, lambda r: sig.add_sequence(r, force=True))
+            else:
+                st, exn = feed_plain(mh, recs, lambda r: sig.add_sequence(r))
+            final = sig.minhash
+    hs = hashes_of(final)
+    res = ("ok " if st == "ok" else "err " + exn + " ") + counts_str(hs)
+    bad = views_of_sketch(final, mol, k, seed)
+    no_nul = all(0 not in r for r in recs)
+    add_name = "add_protein" if protein else "add_sequence"
+    # a frozen sketch refuses, and stays what it was
+    fz = final.to_frozen()
+    try:
+        getattr(fz, add_name)(*((recs[0],) if protein else (recs[0], force)))
+        bad.append("frozen-accepts")
+    except TypeError:
+        pass
+    except BaseException:            # noqa: BLE001
+        bad.append("frozen-refusal-class")
+    if hashes_of(fz) != hs:
+        bad.append("frozen-changed")
+    fsig = SourmashSignature(final).to_frozen()
+    try:
+        getattr(fsig, add_name)(*((recs[0],) if protein else (recs[0], force)))
+        bad.append("frozen-signature-accepts")
+    except ValueError:
+        pass
+    except BaseException:            # noqa: BLE001
+        bad.append("frozen-signature-refusal-class")
+    if hashes_of(fsig.minhash) != hs:
+        bad.append("frozen-signature-changed")
+    if st == "ok" and no_nul and not (protein and mol == "dna"):
+        # bulk route: the hashes seq_to_hashes returns, added with add_many
+        alt = fresh(mol, k, seed)
+        try:
+            for r in recs:
+                got = alt.seq_to_hashes(r, force=force, is_protein=protein)
+                if case.n % 2:
+                    alt.add_many(got)
+                else:
+                    for h in got:
+                        alt.add_hash(h)
+            if hashes_of(alt) != hs:
+                bad.append("add_many-of-seq_to_hashes")
+        except BaseException as e:   # noqa: BLE001
+            bad.append("seq_to_hashes-raises-" + exc_name(e))
+        # k-mer by k-mer (add_kmer checks the length, then add_sequence)
+        k_nt = k if mol == "dna" else 3 * k
+        ups = [bytes(b - 32 if 97 <= b <= 122 else b for b in r) for r in recs]
+        if not protein and k >= 1 and all(all(b in b"ACGT" for b in u) for u in ups) and sum(len(u) for u in ups) <= 120:
+            alt2 = fresh(mol, k, seed)
+            for r in recs:
+                for i in range(len(r) - k_nt + 1):
+                    alt2.add_kmer(maybe_str(r[i:i + k_nt], case.n % 2 == 1))
+            if hashes_of(alt2) != hs:
+                bad.append("add_kmer-each-window")
+            try:
+                alt2.add_kmer(b"A" * (k_nt + 1))
+                bad.append("add_kmer-accepts-wrong-length")
+            except ValueError:
+                pass
+    # every sketch of a multi-sketch signature gets the same records
+    if not (protein and mol == "dna") and no_nul and k >= 1:
+        bad += multi_sketch_view(mol, k, seed, force, recs, protein, st)
+    # an accumulating sketch = the sum of the fresh ones
+    if st == "ok":
+        key = (mol, k, seed, protein)
+        if key not in case.acc:
+            case.acc[key] = (fresh(mol, k, seed), {})
+        accmh, exp = case.acc[key]
+        st2, _ = feed_plain(accmh, recs, (lambda r: accmh.add_protein(r)) if protein else (lambda r: accmh.add_sequence(r, force)))
+        for h, c in hs.items():
+            exp[h] = exp.get(h, 0) + c
+        if st2 != "ok" or hashes_of(accmh) != exp:
+            bad.append("accumulating-sketch")
+    case.keep("sketch", final, hashes_of)
+    return res, bad
+
+
+def multi_sketch_view(mol, k, seed, force, recs, protein, st):
+    """ComputeParameters -> SourmashSignature.from_params -> signature-level add: each sketch must hold
+    what the stand-alone sketch of the same parameters holds"""
+    bad = []
+    if mol == "dna":
+        ks, flags = [k, k + 2], dict(dna=True, protein=False, dayhoff=False, hp=False)
+        wanted = [("dna", k), ("dna", k + 2)]
+    else:
+        ks = [3 * k, 3 * (k + 1)]
+        flags = dict(dna=not protein, protein=True, dayhoff=(mol != "protein"), hp=(mol == "hp"))
+        wanted = [(m, kk) for kk in (k, k + 1) for m in ("protein", "dayhoff", "hp") if flags[m]]
+        if flags["dna"]:
+            wanted += [("dna", 3 * k), ("dna", 3 * (k + 1))]
+    cp = ComputeParameters(ksizes=ks, seed=seed, num_hashes=0, track_abundance=True, scaled=1, **flags)
+    sig = SourmashSignature.from_params(cp)
+    st_m, _ = feed_plain(None, recs, (lambda r: sig.add_protein(r)) if protein else (lambda r: sig.add_sequence(r, force)))
+    alone = {}
+    st_any = "ok"
+    for m, kk in wanted:
+        a = fresh(m, kk, seed)
+        s1, _ = feed_plain(a, recs, (lambda r: a.add_protein(r)) if protein else (lambda r: a.add_sequence(r, force)))
+        if s1 != "ok":
+            st_any = "err"
+        alone[(MOLTYPE[m], kk)] = hashes_of(a)
+    if st_m != st_any:
+        bad.append("multi-sketch-status")
+    elif st_m == "ok":
+        js = sigmod.save_signatures_to_json([sig])
+        got = {}
+        for s in sigmod.load_signatures_from_json(js):
+            got[(s.minhash.moltype, s.minhash.ksize)] = hashes_of(s.minhash)
+        if got != alone:
+            bad.append("multi-sketch-content")
+    return bad
+
+
+_TMP = None
+
+
+def tmpdir():
+    global _TMP
+    if _TMP is None:
+        verif = os.path.dirname(os.path.dirname(os.path.dirname(os.path.abspath(__file__))))
+        base = os.path.join(os.environ.get("VERIF_BUILD", os.path.join(verif, ".build")), "tmp")
+        os.makedirs(base, exist_ok=True)
+        _TMP = tempfile.mkdtemp(prefix="c02cli", dir=base)
+        atexit.register(shutil.rmtree, _TMP, True)
+    return _TMP
+
+
+def fasta_safe(r):
+    return len(r) >= 1 and all(65 <= b <= 90 or 97 <= b <= 122 or b == 42 for b in r)
+
+
+def run_sketch_cli(case, mol, k, seed, check, isprot, recs):
+    """`sourmash sketch dna|translate|protein` (or the older `compute`) in-process on a FASTA file"""
+    from sourmash.__main__ import main as sm_main
+    from sourmash.logging import set_quiet
+    from sourmash import load_file_as_signatures
+    d = tmpdir()
+    fa, out = os.path.join(d, "in.fa"), os.path.join(d, "out.sig")
+    with open(fa, "wb") as f:
+        for i, r in enumerate(recs):
+            f.write(b">r%d some description\n" % i + r + b"\n")
+    if os.path.exists(out):
+        os.remove(out)
+    p = f"k={k},scaled=1,abund,seed={seed}"
+    if isprot:
+        argv = ["sketch", "protein", "-p", f"{mol},{p}", "-o", out, fa]
+    elif mol != "dna":
+        argv = ["sketch", "translate", "-p", f"{mol},{p}", "-o", out, fa]
+    elif case.n % 2:
+        argv = ["compute", "-k", str(k), "--scaled", "1", "--track-abundance", "--seed", str(seed), "-o", out, fa]
+    else:
+        argv = ["sketch", "dna", "-p", p, "-o", out, fa]
+    if check:
+        argv.append("--check-sequence")
+    rc = 0
+    try:
+        with contextlib.redirect_stdout(io.StringIO()), contextlib.redirect_stderr(io.StringIO()):
+            sm_main(argv)
+    except SystemExit as e:
+        rc = 0 if e.code in (0, None) else 1
+    except BaseException:            # noqa: BLE001
+        rc = 1
+    finally:
+        set_quiet(False)
+    if rc != 0:
+        return "err", (["cli-error-leaves-output"] if os.path.exists(out) else [])
+    sigs = list(load_file_as_signatures(out))
+    bad = []
+    if len(sigs) != 1:
+        return "ok ?", ["cli-sketch-count"]
+    mh = sigs[0].minhash
+    if (mh.moltype, mh.ksize, mh.seed, mh.scaled) != (MOLTYPE[mol], k, seed, 1):
+        bad.append("cli-params")
+    return "ok " + counts_str(hashes_of(mh)), bad
+
+
+def reader_sketch(case, mol, k, seed):
+    """the sketch a read-only call is made on: construction must not matter"""
+    v = case.n % 6
+    kw = MOL[mol]
+    if v == 0:
+        return MinHash(0, k, scaled=1, seed=seed, **kw)
+    if v == 1:
+        return MinHash(500, k, seed=seed, **kw)
+    if v == 2:
+        return MinHash(0, k, scaled=1000, seed=seed, track_abundance=True, **kw)
+    if v == 3:
+        m = MinHash(0, k, scaled=1, seed=seed, **kw)
+        m.add_many([5, 77, 2 ** 63])
+        return m
+    if v == 4:
+        return MinHash(3, k, seed=seed, track_abundance=True, **kw).to_frozen()
+    m = MinHash(0, k, scaled=7, seed=seed, **kw)
+    return SourmashSignature(m).minhash
 
 
 def main():
     out = sys.stdout
+    case = Case()
     for line in sys.stdin:
         w = line.split()
         if not w:
             out.write("bad-op\n")
             continue
         op, a = w[0], w[1:]
+        bad = []
         try:
             if op == "#":
+                case = Case()
                 out.write("#\n")
                 continue
+            case.n += 1
             if op == "murmur" and len(a) == 2:
                 data, seed = unhex(a[1]), seed_of(a[0])
                 try:
-                    res = f"ok {hash_murmur(data, seed)}"
+                    r = case.n % 4
+                    if r == 1 and seed == 42:
+                        v = hash_murmur(data)                      # defaulted seed
+                    elif r == 2 and len(data) == 1:
+                        v = hash_murmur(data[0], seed)             # an int is one byte
+                    elif r == 3:
+                        v = hash_murmur(maybe_str(data, True), seed=seed)
+                    else:
+                        v = hash_murmur(data, seed)
+                    if hash_murmur(data, seed) != v:
+                        bad.append("hash_murmur-routes")
+                    # kmerminhash_add_word (no Python wrapper): the word hashed with the sketch's seed
+                    wm = MinHash(0, 4, scaled=1, seed=seed)
+                    lib.kmerminhash_add_word(wm._objptr, data)
+                    if list(wm.hashes) != [v]:
+                        bad.append("add_word-vs-hash_murmur")
+                    res = f"ok {v}"
                 except BaseException as e:   # noqa: BLE001
                     res = "err " + exc_name(e)
+            elif op == "codon" and len(a) == 1:
+                data = unhex(a[0])
+                try:
+                    v = translate_codon(maybe_str(data, case.n % 2 == 0))
+                    res = f"ok {ord(v)}"
+                except BaseException as e:   # noqa: BLE001
+                    res = "err " + exc_name(e)
+            elif op == "aa" and len(a) == 2:
+                b = nat(a[1])
+                if b > 255 or a[0] not in ("dayhoff", "hp"):
+                    raise KeyError(a[1])
+                fn = lib.sourmash_aa_to_dayhoff if a[0] == "dayhoff" else lib.sourmash_aa_to_hp
+                res = f"ok {fn(bytes([b]))[0]}"
             elif op == "s2h" and len(a) == 8:
                 mol, k, seed, force, baz, isprot, mode, hx = a
-                kw = MOL[mol]
                 k, seed, force, baz, isprot = nat(k), seed_of(seed), flag(force), flag(baz), flag(isprot)
                 arg = as_arg(unhex(hx), mode)
-                mh = MinHash(0, k, scaled=1, seed=seed, **kw)
+                mh = reader_sketch(case, mol, k, seed)
+                before = hashes_of(mh)
+
+                def call():
+                    if not force and not baz and not isprot and case.n % 2:
+                        return mh.seq_to_hashes(arg)               # every keyword defaulted
+                    return mh.seq_to_hashes(arg, force=force, bad_kmers_as_zeroes=baz, is_protein=isprot)
                 try:
-                    hs = mh.seq_to_hashes(arg, force=force, bad_kmers_as_zeroes=baz, is_protein=isprot)
+                    hs = call()
                     res = "ok " + ",".join(str(h) for h in hs)
+                    if call() != hs:
+                        bad.append("seq_to_hashes-twice")
+                    other = unhex(hx) if mode == "str" else None
+                    if other is not None and mh.seq_to_hashes(other, force=force, bad_kmers_as_zeroes=baz,
+                                                              is_protein=isprot) != hs:
+                        bad.append("seq_to_hashes-str-vs-bytes")
+                    case.keep("s2h-result", hs, lambda x: list(x))
                 except BaseException as e:   # noqa: BLE001
                     res = "err " + exc_name(e)
+                    try:
+                        call()
+                        bad.append("seq_to_hashes-error-not-repeated")
+                    except BaseException as e2:   # noqa: BLE001
+                        if exc_name(e2) != exc_name(e):
+                            bad.append("seq_to_hashes-error-class-changes")
+                if hashes_of(mh) != before:
+                    bad.append("seq_to_hashes-modifies-sketch")
             elif op == "kah" and len(a) == 6:
                 mol, k, seed, force, isprot, hx = a
-                kw = MOL[mol]
                 k, seed, force, isprot = nat(k), seed_of(seed), flag(force), flag(isprot)
                 bs = unhex(hx)
                 if any(b >= 128 for b in bs):
                     raise KeyError("ascii only")
-                mh = MinHash(0, k, scaled=1, seed=seed, **kw)
+                mh = reader_sketch(case, mol, k, seed)
+                before = hashes_of(mh)
+                s = bs.decode("ascii")
+
+                def gen():
+                    if not force and not isprot and case.n % 2:
+                        return mh.kmers_and_hashes(s)
+                    return mh.kmers_and_hashes(s, force=force, is_protein=isprot)
                 try:
-                    ps = list(mh.kmers_and_hashes(bs.decode("ascii"), force=force, is_protein=isprot))
+                    ps = list(gen())
                     res = "ok " + ";".join((km.encode("ascii").hex() or "-") + ":" + ("-" if h is None else str(h))
                                            for km, h in ps)
+                    if list(gen()) != ps:
+                        bad.append("kmers_and_hashes-twice")
+                    # the hashes it pairs are the hashes seq_to_hashes returns (None = 0 under force)
+                    flat = mh.seq_to_hashes(s, force=force, bad_kmers_as_zeroes=force, is_protein=isprot)
+                    if [0 if h is None else h for _, h in ps] != flat:
+                        bad.append("kmers_and_hashes-vs-seq_to_hashes")
                 except BaseException as e:   # noqa: BLE001
                     res = "err " + exc_name(e)
+                if hashes_of(mh) != before:
+                    bad.append("kmers_and_hashes-modifies-sketch")
             elif op == "addseq" and len(a) >= 5:
                 mol, k, seed, force = a[:4]
-                kw = MOL[mol]
                 k, seed, force = nat(k), seed_of(seed), flag(force)
+                MOL[mol]
                 recs = [unhex(h) for h in a[4:]]
-                mh = MinHash(0, k, scaled=1, seed=seed, track_abundance=True, **kw)
-                res = feed(mh, recs, lambda r: mh.add_sequence(r, force))
+                res, bad = run_add(case, mol, k, seed, force, recs, False)
+            elif op == "sketch" and len(a) >= 6:
+                mol, k, seed, check, isprot = a[:5]
+                k, seed, check, isprot = nat(k), seed_of(seed), flag(check), flag(isprot)
+                MOL[mol]
+                recs = [unhex(h) for h in a[5:]]
+                if not all(fasta_safe(r) for r in recs) or k < 1 or (isprot and (mol == "dna" or check)):
+                    raise KeyError("not for a FASTA file")
+                res, bad = run_sketch_cli(case, mol, k, seed, check, isprot, recs)
             elif op == "addprot" and len(a) >= 4:
                 mol, k, seed = a[:3]
-                kw = MOL[mol]
                 k, seed = nat(k), seed_of(seed)
+                MOL[mol]
                 recs = [unhex(h) for h in a[3:]]
-                mh = MinHash(0, k, scaled=1, seed=seed, track_abundance=True, **kw)
-                res = feed(mh, recs, lambda r: mh.add_protein(r))
+                res, bad = run_add(case, mol, k, seed, False, recs, True)
             else:
                 res = "bad-op"
+            bad += case.recheck()
         except KeyError:
             res = "bad-op"
+        except BaseException as e:   # noqa: BLE001   (a cross-check itself blew up: report, do not die)
+            res = "bad-op"
+            bad = ["adapter-exception-" + exc_name(e)]
+        if bad:
+            res += " VIEW:" + "+".join(sorted(set(bad)))
         out.write(res + "\n")
     out.flush()
 
